@@ -485,6 +485,17 @@ class Check:
             if self.proof.leanchecker is not None:
                 cov["leanchecker_ok"] = self.proof.leanchecker
         cov.update(self.extra)
+        # schema hygiene: these keys must be integers when present
+        for k in ("programs", "states", "transitions", "traces_validated_against_impl", "disagreements_checked"):
+            v = cov.get(k)
+            if v is not None and not isinstance(v, int):
+                cov[k + "_detail"] = v
+                if isinstance(v, dict) and isinstance(v.get(k), int):
+                    cov[k] = v[k]
+                elif isinstance(v, (list, dict)):
+                    cov[k] = len(v)
+                else:
+                    del cov[k]
         ev = {
             "property_id": self.pid, "tier": self.tier, "seed": self.seed, "level": self.level,
             "coverage": cov, "assumptions": self.assumptions, "wall_s": round(wall, 2),
